@@ -793,6 +793,77 @@ def compose_spec(case, out):
     return bad
 
 
+# ---- mpi_atan2: which corners of the rectangle mpf_atan2 is evaluated at (Algo/Libmpi.v: mpi_atan2_plan) ----------------
+def c_mpi_atan2_plan(rng, fn):
+    prec = rng.choice([2, 5, 10, 24, 53, 64, 100, 113, rng.randint(2, 200)])
+    def iv_(kind):
+        s = _small_iv(rng, prec, -10, 6)
+        a, b = s
+        if kind == 1: a = (0,) + tuple(a[1:]) if a[1] else a; b = (0,) + tuple(b[1:]) if b[1] else b       # >= 0
+        if kind == 2: a = (1,) + tuple(a[1:]) if a[1] else a; b = (1,) + tuple(b[1:]) if b[1] else b       # <= 0
+        if kind == 3: a = (1,) + tuple(a[1:]) if a[1] else a; b = (0,) + tuple(b[1:]) if b[1] else b       # mixed
+        va = V(a) if a[1] else 0; vb = V(b) if b[1] else 0
+        return (a, b) if va <= vb else (b, a)
+    y = iv_(rng.randrange(4)); x = iv_(rng.randrange(4))
+    if rng.random() < 0.08: y = (gen.FZERO, gen.FZERO)
+    rec = {}
+
+    def thunk():
+        calls = []
+        orig = I.mpf_atan2
+        def w(y_, x_, prec_, rnd_="n"):
+            calls.append((y_, x_, rnd_)); return orig(y_, x_, prec_, rnd_)
+        I.mpf_atan2 = w
+        try:
+            res = I.mpi_atan2(y, x, prec)
+        except Exception as e:
+            return enc_exc(e)
+        finally:
+            I.mpf_atan2 = orig
+        rec["res"] = res; rec["calls"] = calls
+        if len(calls) == 2 and {c[2] for c in calls} == {"f", "c"}:
+            ca = next(c for c in calls if c[2] == "f"); cb = next(c for c in calls if c[2] == "c")
+            return [0, 2] + list(ca[0]) + list(ca[1]) + list(cb[0]) + list(cb[1])
+        if calls:
+            return [0, 9]                              # unexpected call pattern: reported as a disagreement
+        if res == (gen.FZERO, gen.FZERO):
+            return [0, 0]
+        if res[0] == gen.FZERO:
+            return [0, 4]
+        return [0, 1] if res[0][0] == 0 else [0, 3]
+    pts = (points(rng, y), points(rng, x))
+    return Case(fn, flat(y, x), thunk, ("atan2plan", y, x, pts, rec), prec, None, rounded=False, ret_mpf=False, desc=("atan2", y, x))
+
+
+def atan2_spec(case, out):
+    bad = []
+    _, y, x, pts, rec = case.exact
+    if "res" not in rec: return bad
+    a, b = rec["res"]
+    prec = case.prec
+    def ang(v, u):
+        if v == 0 and u >= 0: return Fraction(0), Fraction(0)
+        return _hp(v, prec + 20, lambda m: m.atan2(_mp(m, v), _mp(m, u)))
+    def meets(lohi):
+        below = lohi[0] > (V(b) if b[1] else 0)
+        above = lohi[1] < (V(a) if a[1] else 0)
+        return not (below or above)
+    for (cy, cx, rnd) in rec.get("calls", []):
+        vy = V(cy) if cy[1] else Fraction(0); vx = V(cx) if cx[1] else Fraction(0)
+        if vy == 0 and vx == 0: continue
+        lo, hi = ang(vy, vx)
+        if rnd == "f" and (V(a) if a[1] else 0) > hi:
+            bad.append(("CONTAIN", "mpf_atan2 rounded towards -inf lies above atan2 at its corner: the directed-rounding hypothesis fails"))
+        if rnd == "c" and (V(b) if b[1] else 0) < lo:
+            bad.append(("CONTAIN", "mpf_atan2 rounded towards +inf lies below atan2 at its corner: the directed-rounding hypothesis fails"))
+    for v in pts[0][:5]:
+        for u in pts[1][:5]:
+            if v == 0 and u == 0: continue
+            if not meets(ang(v, u)):
+                bad.append(("CONTAIN", "mpi_atan2 misses atan2(%s, %s)" % (v, u))); return bad
+    return bad
+
+
 GENS = {}
 for _f in ("mpc_add", "mpc_sub", "mpc_mul", "mpc_div"): GENS[_f] = c_mpc_bin
 for _f in ("mpc_square", "mpc_pos", "mpc_neg", "mpc_conjugate", "mpc_reciprocal", "mpc_sqrt", "mpc_abs", "mpc_floor",
@@ -813,6 +884,7 @@ GENS["mpi_cos_sin_from"] = c_mpi_cos_sin_from
 GENS["mpi_tan_from"] = c_mpi_cos_sin_from
 GENS["mpi_cot_from"] = c_mpi_cos_sin_from
 GENS["mpi_finalize"] = c_mpi_finalize
+GENS["mpi_atan2_plan"] = c_mpi_atan2_plan
 for _f in ("mpci_abs", "mpi_pow_from", "mpi_cosh_sinh_from", "mpci_exp_from", "mpci_cos_from", "mpci_sin_from"): GENS[_f] = c_compose
 
 
@@ -863,6 +935,8 @@ def spec_check(case, out):
         return trig_spec(case, out)
     if kind == "compose":
         return compose_spec(case, out)
+    if kind == "atan2plan":
+        return atan2_spec(case, out)
     if kind == "cv0":   # conjugate: real part passed through unchanged, imaginary part rounded
         t0, t1 = tup4(p, 0), tup4(p, 1)
         if not ((V(t0) if t0[1] else 0) == case.exact[1][0]): bad.append(("ROUND", "real part changed by conjugate"))
